@@ -148,34 +148,52 @@ theorem C17_good_after_bad (to : Timeouts) (bad : List Behaviour) (g : Behaviour
   exact ⟨g, _, _, _, by simp, hg, he⟩
 
 /-- A directory NRI creates for its socket carries no permission bit for group or others,
-    under every umask. -/
-theorem C17_dir_private (umask : Mode) : mkdirMode umask &&& 0o077#12 = 0#12 := by
+    under every umask and inside every parent directory. -/
+theorem C17_dir_private (umask parent : Mode) : mkdirMode umask parent &&& 0o077#12 = 0#12 := by
   unfold mkdirMode
-  rw [BitVec.and_assoc, BitVec.and_comm (~~~umask), ← BitVec.and_assoc]
-  have : (0o700#12 : BitVec 12) &&& 0o077#12 = 0#12 := by decide
-  rw [this]
-  simp
+  apply BitVec.eq_of_getLsbD_eq
+  intro i hi
+  have h1 : ((0o700#12 : BitVec 12).getLsbD i && (0o077#12 : BitVec 12).getLsbD i) = false := by
+    have : i = 0 ∨ i = 1 ∨ i = 2 ∨ i = 3 ∨ i = 4 ∨ i = 5 ∨ i = 6 ∨ i = 7 ∨ i = 8 ∨ i = 9 ∨ i = 10 ∨ i = 11 := by omega
+    rcases this with h|h|h|h|h|h|h|h|h|h|h|h <;> subst h <;> decide
+  have h2 : ((0o2000#12 : BitVec 12).getLsbD i && (0o077#12 : BitVec 12).getLsbD i) = false := by
+    have : i = 0 ∨ i = 1 ∨ i = 2 ∨ i = 3 ∨ i = 4 ∨ i = 5 ∨ i = 6 ∨ i = 7 ∨ i = 8 ∨ i = 9 ∨ i = 10 ∨ i = 11 := by omega
+    rcases this with h|h|h|h|h|h|h|h|h|h|h|h <;> subst h <;> decide
+  simp only [BitVec.getLsbD_and, BitVec.getLsbD_or, BitVec.getLsbD_not, BitVec.getLsbD_zero]
+  cases ha : (0o700#12 : BitVec 12).getLsbD i <;> cases hb : (0o077#12 : BitVec 12).getLsbD i <;>
+    cases hc : (0o2000#12 : BitVec 12).getLsbD i <;> simp_all
 
-example : mkdirMode 0o022#12 = 0o700#12 ∧ mkdirMode 0o277#12 = 0o500#12 ∧ mkdirMode 0o777#12 = 0#12 := by decide
+example : mkdirMode 0o022#12 0o755#12 = 0o700#12 ∧ mkdirMode 0o277#12 0o755#12 = 0o500#12 ∧
+          mkdirMode 0o777#12 0o777#12 = 0#12 ∧ mkdirMode 0o022#12 0o2775#12 = 0o2700#12 := by decide
 
 /-- The same for everything `startListener` creates: every path component that was missing
     is private afterwards; components that existed are left as they were. -/
-theorem C17_created_private (umask : Mode) (chain : List (Option Mode)) (modes : List Mode)
-    (h : startListener false umask chain = some modes) :
+theorem C17_created_private (umask parent : Mode) (chain : List (Option Mode)) (modes : List Mode)
+    (h : startListener false umask parent chain = some modes) :
     modes.length = chain.length ∧
     ∀ i : Nat, (chain[i]? = some none → ∃ m, modes[i]? = some m ∧ m &&& 0o077#12 = 0#12) ∧
          (∀ m, chain[i]? = some (some m) → modes[i]? = some m) := by
   simp only [startListener, Bool.false_eq_true, if_false, Option.some.injEq] at h
   subst h
-  refine ⟨by simp [mkdirAll], fun i => ⟨?_, ?_⟩⟩
-  · intro hi
-    refine ⟨mkdirMode umask, ?_, C17_dir_private umask⟩
-    simp [mkdirAll, List.getElem?_map, hi]
-  · intro m hi
-    simp [mkdirAll, List.getElem?_map, hi]
+  induction chain generalizing parent with
+  | nil => simp [mkdirAll]
+  | cons c rest ih =>
+    cases c with
+    | none =>
+      have := ih (mkdirMode umask parent)
+      refine ⟨by simp [mkdirAll, this.1], fun i => ?_⟩
+      cases i with
+      | zero => simp [mkdirAll, C17_dir_private]
+      | succ i => simpa [mkdirAll] using this.2 i
+    | some m0 =>
+      have := ih m0
+      refine ⟨by simp [mkdirAll, this.1], fun i => ?_⟩
+      cases i with
+      | zero => simp [mkdirAll]
+      | succ i => simpa [mkdirAll] using this.2 i
 
 /-- With external connections disabled nothing is created and no socket is served. -/
-theorem C17_no_listen (umask : Mode) (chain : List (Option Mode)) :
-    startListener true umask chain = none := rfl
+theorem C17_no_listen (umask parent : Mode) (chain : List (Option Mode)) :
+    startListener true umask parent chain = none := rfl
 
 end Nri.Props.C17
